@@ -66,7 +66,7 @@ def describe(rep):
         'spec matrices are the ones the sweeper object holds (Q, QI, QE, Q1, Q2); their zero padding and agreement with a fresh qmat generator are concrete side conditions',
         'dt > 0',
     )
-    rep.out_of_scope('boris_2nd_order, Multistep, Runge_Kutta_Nystrom, DAE project sweepers (scipy.optimize.root), MPI sweepers',
+    rep.out_of_scope('boris_2nd_order and Runge_Kutta_Nystrom (need the Penning-trap specific boris_solver / build_f), DAE project sweepers (scipy.optimize.root), MPI sweepers',
                      'nonlinear right-hand sides', 'rounding error of the data path')
 
 
@@ -131,6 +131,8 @@ def tasks(tier, seed):
     for M in ([2, 3] if quick else [1, 2, 3, 4]):
         T.append(('diag', M, 'implicit'))
         T.append(('diag', M, 'imex'))
+    for nm in ('AdamsBashforthExplicit1Step', 'BackwardEuler', 'AdamsMoultonImplicit1Step', 'AdamsMoultonImplicit2Step'):
+        T.append(('multistep', nm))
     T.append(('tables',))
     return T
 
@@ -152,6 +154,10 @@ def run_task(rep, task):
         from harness.c02_rk import diag_case
 
         diag_case(rep, task[1], task[2])
+    elif task[0] == 'multistep':
+        from harness.c02_rk import multistep_case
+
+        multistep_case(rep, task[1])
     elif task[0] == 'tables':
         tables_case(rep)
 
